@@ -129,7 +129,7 @@ def cases(tier, seed):
                 if jw and not model.startswith(("qc", "spin-long")):
                     continue
                 yield {"k": "swap", "model": model, "swap_jw": jw, "algo": algo, "L": 2 if quick else 3}
-    for model in ("spin5", "vibronic", "qc2"):
+    for model in ("spin5", "vibronic", "qc2", "qc2-noqn"):
         for driver in ("gs", "ps2"):
             for ofs in ("ofs_d", "ofs_s", "ofs_ds", "ofs_debug"):
                 yield {"k": "ofs", "model": model, "driver": driver, "ofs": ofs}
@@ -329,6 +329,9 @@ def ofs_model(name, seed):
         return basis, terms, [0], False
     h, eri = integrals(2, 0b111, "generic", seed)
     sh, aseri = h_qc.int_to_h(h, eri)
+    if name == "qc2-noqn":
+        basis, terms = h_qc.qc_model(sh, aseri, conserve_qn=False)
+        return basis, terms, [0], True
     basis, terms = h_qc.qc_model(sh, aseri)
     return basis, terms, [1, 1], True
 
@@ -358,6 +361,24 @@ def run_ofs(desc, seed):
     except FloatingPointError:
         return {"skipped": 1, "outcome": "random-failed"}
     dof0 = [b.dofs for b in basis0]
+
+    def fermion_back(mps_out):
+        """the state of mps_out re-expressed in the ORIGINAL orbital order of the Jordan-Wigner chain: site permutation plus the sign of
+        the permutation restricted to the occupied orbitals (every exchange of two occupied neighbours contributes -1)"""
+        order = [dof0.index(b.dofs) for b in mps_out.model.basis]
+        v = dense_of(mps_out, with_coeff=False).reshape([2] * n)
+        out = np.zeros(2 ** n, dtype=complex)
+        for bits in itertools.product((0, 1), repeat=n):
+            amp = v[bits]
+            if amp == 0:
+                continue
+            occ = [order[k] for k in range(n) if bits[k]]
+            inv = sum(1 for i in range(len(occ)) for j in range(i + 1, len(occ)) if occ[i] > occ[j])
+            tgt = [0] * n
+            for k in range(n):
+                tgt[order[k]] = bits[k]
+            out[int("".join(map(str, tgt)), 2)] = (-1) ** inv * amp
+        return out, order
 
     def perm_back(mps_out):
         """dense vector of mps_out re-expressed in the original site order (with the fermionic signs undone for swap_jw)"""
@@ -413,12 +434,14 @@ def run_ofs(desc, seed):
             add(viol, "C17:ofs:gs:not-variational", f"{tag}: {e} < {wex[0]}")
         if abs(e - wex[0]) > 1e-5 * max(1, abs(wex[0])):
             add(viol, f"C17:ofs:gs:energy:{desc['ofs']}", f"{tag}: final order {order}: energy {e} vs exact {wex[0]}")
-        # energy of the returned state with the (re-ordered) operator
-        eh = out.expectation(H)
+        # energy of the returned state with the (re-ordered) operator -- only meaningful when the operator is in the state's order
+        # (when it is not, that is reported once above as operator-and-state-order-differ)
+        same_order = [b.dofs for b in H.model.basis] == [b.dofs for b in out.model.basis]
+        eh = out.expectation(H) if same_order else e
         if abs(eh - e) > 1e-6 * max(1, abs(e)):
             add(viol, f"C17:ofs:gs:state-operator-inconsistent:{'jw' if jw else 'plain'}", f"{tag}: final order {order}: <psi|H_reordered|psi> = {eh} but the reported energy is {e}")
-        if not jw:
-            v, _ = perm_back(out)
+        if True:
+            v, _ = fermion_back(out) if jw else perm_back(out)
             gs = np.zeros(len(mask), dtype=complex)
             gs[mask] = vex[:, 0]
             ov = abs(np.vdot(gs, v)) / np.linalg.norm(v)
@@ -432,8 +455,8 @@ def run_ofs(desc, seed):
         e0 = np.real(np.vdot(v_init, D0 @ v_init)) / np.vdot(v_init, v_init).real
         if abs(eh - e0) > 5e-3 * max(1, abs(e0)):
             add(viol, f"C17:ofs:ps2:energy-not-conserved:{'jw' if jw else 'plain'}", f"{tag}: final order {order}: energy {e0} -> {eh}")
-        if not jw:
-            v, _ = perm_back(out)
+        if True:
+            v, _ = fermion_back(out) if jw else perm_back(out)
             ref = scipy.linalg.expm(-1j * T * D0) @ v_init
             err = np.linalg.norm(v - ref) / np.linalg.norm(ref)
             if err > 2e-2:
